@@ -405,7 +405,8 @@ def run_linear(ctx, np, selftest):
         waits.append(lambda c=c, d=d, n=n: ctx.tlc('Adjoint', c, defs=d, name='tape-laws-%d' % n, emit=False, workers=4, coverage=(n == 0), require_actions=('Forward', 'Turn', 'Backprop', 'Finish') if n == 0 else (), timeout=3000))
     for r in core.parallel(waits, max_workers=4):
         pass
-    small = [p for p in progs if p['kind'] == 'babinet' and tuple(p['params']['fpm']) == tuple(p['shape']) and p['params']['maskkind'] == 'complex'][:2]
+    # (the vacuity guards use the same two programs in every tier)
+    small = [p for p in programs('quick') if p['kind'] == 'babinet' and tuple(p['params']['fpm']) == tuple(p['shape']) and p['params']['maskkind'] == 'complex'][:2]
     for variant in ('no-conj', 'negated', 'forward-order'):
         c, d = cfg_lin(small, False, variant=variant)
         ctx.tlc('Adjoint', c, defs=d, name='pinned-' + variant, emit=False, must_hold=False, count=False, coverage=False)
